@@ -23,6 +23,7 @@ INFO = {
 MANDATORY = {'conf': ['precedence'], 'face': ['face-of-uri']}
 
 HOME = '/home/u'
+LINK_DIR = '/dotfiles/store'
 CAND = [HOME + '/.ndn/client.conf', '/usr/local/etc/ndn/client.conf', '/opt/local/etc/ndn/client.conf',
         '/etc/ndn/client.conf']
 FILE_VALUES = {
@@ -39,12 +40,25 @@ ENV_VALUES = {
 
 class FS:
     """existence of every path is decided lazily: a fresh solver Boolean per distinct path"""
-    def __init__(self, eng, fixed=None):
+    def __init__(self, eng, fixed=None, links=False):
         self.eng = eng
         self.known = dict(fixed or {})
         self.asked = []
+        self.links = {} if links else None
+
+    def realpath(self, p):
+        """the candidate configuration files may be symbolic links into another directory (one solver Boolean each)"""
+        p = posixpath.normpath(p)
+        if self.links is not None and p in CAND:
+            if p not in self.links:
+                self.links[p] = bool(self.eng.bool('symlink:' + p))
+            if self.links[p]:
+                return LINK_DIR + '/' + str(CAND.index(p)) + '/client.conf'
+        return p
 
     def exists(self, p):
+        if p.startswith(LINK_DIR + '/') and p.endswith('/client.conf'):
+            p = CAND[int(p[len(LINK_DIR) + 1:].split('/')[0])]      # the link target exists iff the link does
         if p not in self.known:
             self.known[p] = self.eng.bool('exists:' + p)
         self.asked.append(p)
@@ -65,6 +79,8 @@ def install(eng, fs, environ, files):
         isfile = staticmethod(fs.exists)
         isdir = staticmethod(fs.exists)
         expandvars = staticmethod(lambda p: p)
+        realpath = staticmethod(fs.realpath)
+        islink = staticmethod(lambda p: fs.realpath(p) != posixpath.normpath(p))
         expanduser = staticmethod(lambda p: p.replace('~', HOME, 1))
         abspath = staticmethod(lambda p: p if p.startswith('/') else posixpath.join('/cwd', p))
 
@@ -76,6 +92,8 @@ def install(eng, fs, environ, files):
 
     def fake_open(path, *a, **k):
         import io
+        if path.startswith(LINK_DIR + '/') and path.endswith('/client.conf'):
+            path = CAND[int(path[len(LINK_DIR) + 1:].split('/')[0])]
         if path not in files:
             raise FileNotFoundError(path)
         return io.StringIO(files[path])
@@ -109,8 +127,22 @@ WIDE_ENV_VALUES = {
 
 def h_conf(eng, case):
     import ndn.client_conf as cc
-    FILE_VALUES, ENV_VALUES = (WIDE_FILE_VALUES, WIDE_ENV_VALUES) if case.get('wide') else \
+    if case.get('links'):
+        # candidate files that are symbolic links: small value menus (relative store locations are what matters)
+        FILE_VALUES = {'transport': [None], 'pib': [None, 'pib-sqlite3:rel/pib', 'pib-sqlite3:/abs/pib'],
+                       'tpm': ['tpm-file:rel/tpm', 'tpm-file']}
+        ENV_VALUES = {'transport': [None], 'pib': [None, 'pib-sqlite3:envrel/pib'], 'tpm': [None]}
+    else:
+        FILE_VALUES, ENV_VALUES = _menus(case)
+    return _conf(eng, case, cc, FILE_VALUES, ENV_VALUES)
+
+
+def _menus(case):
+    return (WIDE_FILE_VALUES, WIDE_ENV_VALUES) if case.get('wide') else \
         (globals()['FILE_VALUES'], globals()['ENV_VALUES'])
+
+
+def _conf(eng, case, cc, FILE_VALUES, ENV_VALUES):
     if case.get('warm'):
         # an earlier read in the same process saw other file contents at the same paths: nothing of it may survive
         wtext = 'transport=tcp://9.9.9.9:9\npib=pib-sqlite3:/warm/pib\ntpm=tpm-file:/warm/tpm\n'
@@ -122,7 +154,7 @@ def h_conf(eng, case):
         except Exception as e:
             eng.fail('read-no-error', exc_sig(e), repr(e)[:120])
             return
-    fs = FS(eng)
+    fs = FS(eng, links=bool(case.get('links')))
     # which file exists first: decided through fs.exists by the code itself; contents by choice
     sel = {k: eng.choice(len(v), 'file.' + k) for k, v in FILE_VALUES.items()}
     lines = ['; comment line', '']
@@ -252,7 +284,8 @@ HARNESSES = {'conf': h_conf, 'face': h_face}
 
 
 def cases(tier, seed):
-    cs = [('conf', {}, {'weight': 100, 'split_depth': 6}), ('conf', {'warm': True}, {'weight': 30, 'split_depth': 5})]
+    cs = [('conf', {}, {'weight': 100, 'split_depth': 6}), ('conf', {'warm': True}, {'weight': 30, 'split_depth': 5}),
+          ('conf', {'links': True}, {'weight': 30, 'split_depth': 5})]
     for i in range(len(URIS)):
         cs.append(('face', {'i': i}))
     if tier != 'quick':
